@@ -1,6 +1,7 @@
 package drive
 
 import (
+	"bytes"
 	"fmt"
 	"math/rand"
 
@@ -29,6 +30,9 @@ func (s *Session) NewVoterTx(vc *voteCtx, voterID int, flaw string, seqOffset in
 	epoch, chain, pf := vc.Epoch, s.C.ChainID, prop.Bech
 	blsKey, blsSK, txPriv := m.BlsPK, m.BlsSK, m.Priv
 	other := s.member(0)
+	for i := 0; i < 8 && bytes.Equal(other.BlsPK, m.BlsPK); i++ { // a foreign key must really be another key (identities may share vote keys)
+		other = s.member(i)
+	}
 	f := Ev{"pf": vc.Proposer, "voter": voterID, "sizesOk": true, "keyHashOk": true, "txProofOk": true, "blsProofOk": true, "flaw": flaw}
 	switch flaw {
 	case "keyHash":
@@ -177,7 +181,19 @@ func relayerHistory(w *tracew.Writer, seed int64, run, depth int, period, timeou
 	for i := range voters {
 		voters[i] = i + 1
 	}
-	c, _, err := NewStdChain(ChainOpts{ChainID: "goat-rel", Seed: seed % 7, NVals: 1, NMembers: 8, Voters: voters, Proposer: 0, Period: period, AcceptTimeout: timeout})
+	// in half of the histories one or two late joiners hold the SAME BLS vote key as another identity (nothing forbids it at
+	// registration): both are distinct voters, a vote marking both needs that key's signature twice
+	var share [][2]int
+	if r0.Intn(2) == 0 {
+		for k := 1 + r0.Intn(2); k > 0; k-- {
+			b := nv + 1 + r0.Intn(7-nv)
+			a := r0.Intn(8)
+			if a != b {
+				share = append(share, [2]int{a, b})
+			}
+		}
+	}
+	c, _, err := NewStdChain(ChainOpts{ChainID: "goat-rel", Seed: seed % 7, NVals: 1, NMembers: 8, Voters: voters, Proposer: 0, Period: period, AcceptTimeout: timeout, ShareBls: share})
 	if err != nil {
 		return err
 	}
